@@ -198,7 +198,7 @@ def hostArpRequestOrder : List String :=
 
 /-! ### labelled topologies and the network-level certificate -/
 
-inductive NKind | host | switch | other
+inductive NKind | host | switch | router | other
 deriving DecidableEq, Repr
 
 /-- A class topology whose attacker-side interior nodes are hosts and switches, with, for every port, the subnet
@@ -249,6 +249,9 @@ def certifyNodeN (t : TopoN) (n : Nat) (s : Node W) : Bool :=
           bindOK t.rtrIfs qi.2.mac qi.2.ip)
     | .switch => s.kind == .switch &&
         t.wires.all (fun w => (w.1.1 != n || t.label n w.1.2 == t.label n 0) && (w.2.1 != n || t.label n w.2.2 == t.label n 0))
+    | .router => s.kind == .router &&
+        (zipIdx s.ifaces 0).all (fun qi => ifaceOnLabel qi.2 (t.label n qi.1) && srcCovers t.cls qi.2.ip &&
+          t.rtrIfs.contains (qi.2.mac, qi.2.ip) && bindOK t.rtrIfs qi.2.mac qi.2.ip)
     | .other => false
   | .routerDenyC => t.arpExempt &&
       (zipIdx s.ifaces 0).all (fun pi => ifaceOnLabel pi.2 (t.label n pi.1) && t.rtrIfs.contains (pi.2.mac, pi.2.ip))
